@@ -23,6 +23,7 @@ CONSTANTS
   JobMaxes = {1}
   Ops <- mcOps
   Setup <- mcSetup
+  ProjOfName <- mcProjOfName
   Depth = 0
   AttBound = 3
   ViewKeep = {}
